@@ -525,8 +525,8 @@ def rule_F3b(ctx):
 # ---------------------------------------------------------------------------------------
 # F3c: dirty-flag discipline of the Vgroup / Vdata mirrors — a store to a persisted field must come with `marked`
 
-F3C_RECORDS = {"vgroup_desc": ("vpackvg", "marked"), "vdata_desc": ("vpackvs", "marked")}
-F3C_NAME_FIELDS = {"vgroup_desc": {"vgname", "vgclass"}, "vdata_desc": {"vsname", "vsclass"}}
+F3C_RECORDS = {"vgroup_desc": ("vpackvg", "marked"), "vdata_desc": ("vpackvs", "marked"), "ri_info": ("GRIupdatemeta", "meta_modified")}
+F3C_NAME_FIELDS = {"vgroup_desc": {"vgname", "vgclass"}, "vdata_desc": {"vsname", "vsclass"}, "ri_info": {"name", "lut_ref", "lut_tag"}}
 F3C_NOT_MUTATORS = {
     "vunpackvg": "reader: fills the record from the file", "vunpackvs": "reader: fills the record from the file",
     "oldunpackvg": "reader of the old format", "oldunpackvs": "reader of the old format",
@@ -536,6 +536,8 @@ F3C_NOT_MUTATORS = {
     "VSattach": "constructor of a new in-memory Vdata (default interlace of a not-yet-defined Vdata; the header is written once "
                 "fields are set, VSsetfields marks it)",
     "vimakecompat": "old-format converter: writes the converted records itself", "vmakecompat": "old-format converter",
+    "GRIget_image_list": "reader: builds the in-memory image records from the file",
+    "GRIupdatemeta": "encoder: allocates the references of the dimension records while writing them",
 }
 COPY_TO = {"strcpy", "strncpy", "HIstrncpy", "memcpy", "strcat"}
 
@@ -645,12 +647,13 @@ def rule_F3c(ctx, records=None):
         if bad:
             b = bad[0]
             ln, what = a.where.get(b, (f.line, "?"))
+            marks = "/".join(sorted({m for r, (pk, m) in F3C_RECORDS.items() if r in fields}))
             ctx.violated("F3c", key + ":" + b, f.where(ln),
-                         "a persisted field of `%s` is changed (%s) but on a non-failing path `%s->marked` is never set: the change is lost "
-                         "at detach and the file keeps the old record" % (b, what, b))
+                         "a persisted field of `%s` is changed (%s) but on a non-failing path `%s->%s` is never set: the change is lost "
+                         "at detach/end and the file keeps the old record" % (b, what, b, marks))
         else:
-            ctx.holds("F3c", key, f.where(), "every non-failing path that changes a persisted field also sets `marked`")
-    ctx.floor("F3c", 4 * len(fields), n, "(functions changing persisted Vgroup/Vdata fields)")
+            ctx.holds("F3c", key, f.where(), "every non-failing path that changes a persisted field also sets the record's modified flag")
+    ctx.floor("F3c", sum({"ri_info": 3}.get(r, 4) for r in fields), n, "(functions changing persisted Vgroup/Vdata/image fields)")
 
 
 # ---------------------------------------------------------------------------------------
